@@ -13,9 +13,15 @@ def plans(tier):
             dict(gens="collapse,arbitrary", variants="base,subsets", n=20000, W=6, nmax=16, bias=0.8, seed=s + 1)]
 
 
+def real_plans(tier):
+    s = vlib.seed()
+    q = tier == "quick"
+    return [dict(real=True, sets="NetherlandsRDNewQuad", gens="star,hole,spiky,arbitrary", variants="base,subsets", n=300 if q else 10000, seed=s + 50, where="interior,origin,far,nl", maxz=16)]
+
+
 def run(tier):
     return snapcheck.run_snap_property(
-        PROP, tier, "SnapTrace_C08.cfg", plans(tier),
+        PROP, tier, "SnapTrace_C08.cfg", plans(tier), real_plans=real_plans(tier), real_cfg="RealTrace_C08.cfg",
         rule="round synthetic grids; each input is snapped for its full set of 1-3 tile matrices and for every non-empty proper subset; "
              "TLC demands keys within the request and identical geometry per tile matrix across all records of the group")
 
